@@ -404,6 +404,7 @@ def run_io_history(ops, nservers):
     for mac in SERVERS[:nservers]:
         servers[mac] = lab.add_stack(mac, Server, retries=3, apdu_timeout=1000, seg_timeout=500, app_timeout=10000000)
     recs = []            # dict(token, peer, done=[(state, payload)])
+    iocbs = []
     stats = dict(max_live_per_peer=0, injected=0, matched_injections=0, refused_collisions=0, chained=0, iocbs=0)
     fails = []
 
@@ -437,6 +438,7 @@ def run_io_history(ops, nservers):
                 stats["chained"] += 1
                 submit(peer, chain - 1)
         iocb.add_callback(cb)
+        iocbs.append(iocb)
         cl.app.request_io(iocb)
 
     for op in ops:
@@ -450,6 +452,12 @@ def run_io_history(ops, nservers):
                 app = servers[SERVERS[op[1] % nservers]].app
                 if app.pending:
                     app.answer(op[2] % len(app.pending))
+            elif k == "reabort":
+                # housekeeping code aborts an IOCB that is already finished: a documented no-op
+                fin = [io for io, r in zip(iocbs, recs) if r["done"]]
+                if fin:
+                    stats["reaborts"] = stats.get("reaborts", 0) + 1
+                    fin[op[1] % len(fin)].abort(RuntimeError("late watchdog"))
             elif k == "unconf":
                 # unconfirmed traffic to a peer that may have a confirmed request outstanding: sent directly by the application ...
                 stats["unconfirmed"] = stats.get("unconfirmed", 0) + 1
@@ -575,7 +583,7 @@ def run(spec, ctx):
         io2 = st.tuples(st.just("io2"), st.integers(0, 3), st.integers(0, 3)).map(list)
         ans = st.tuples(st.just("ans"), st.integers(0, 3), st.integers(0, 7)).map(list)
         adv = st.tuples(st.just("adv"), st.sampled_from([0.0, 0.3, 2.0])).map(list)
-        unconf = st.tuples(st.sampled_from(["unconf", "whois"]), st.integers(0, 3)).map(list)
+        unconf = st.tuples(st.sampled_from(["unconf", "whois", "reabort", "reabort"]), st.integers(0, 3)).map(list)
         strat = st.tuples(st.lists(st.one_of(io_, io_, io2, ans, ans, ans, adv, unconf), min_size=2, max_size=40), st.integers(1, 3)).map(lambda t: dict(k="io", ops=t[0], nservers=t[1]))
         ctx.for_all(strat, spec["n"])
     elif kind == "burst":
